@@ -10,7 +10,7 @@ PROPS_FILE = 'theories/Props/C17.v'
 PROPS_MODULE = 'Props.C17'
 COQ_TARGETS = ['theories/Extract/ExtractC17.vo']
 REQUIRED_THEOREMS = ['C17_schedules_reachable', 'C17_prefix', 'C17_once', 'C17_same_order', 'C17_lazy', 'C17_lazy_depth',
-                     'C17_lazy_single_end_pull_refuted', 'C17_no_lost_wakeup', 'C17_progress', 'C17_request_refines',
+                     'C17_lazy_single_end_pull_refuted', 'C17_no_lost_wakeup', 'C17_progress', 'C17_request_refines', 'C17_lazy_empty_request',
                      'C17_sync_histories_reachable', 'C17_sync_prefix', 'C17_sync_once', 'C17_sync_same_order', 'C17_sync_lazy',
                      'C17_sync_request_refines']
 MODEL = 'c17'
@@ -44,6 +44,7 @@ RULE = ('handle level (hasync / hsync): one step = one poll_next of a named Asyn
         'random longer ones. non-trivial = a poll returned Pending or the run is synchronous; distinct = distinct implementation outputs')
 
 END = 99  # a key that no bundle has: the request walks to the end of the source
+EMPTY = -1  # a batch request (format_values / format_messages) with an empty key list: needs no bundle at all
 
 
 # ---------------------------------------------------------------------------------------------
@@ -75,6 +76,9 @@ class Sim:
 
     def poll(self, c):
         self.woken[c] = False
+        if self.goals[c] == EMPTY:
+            self.done[c] = True
+            return
         while True:
             if self.curr[c] < self.items:
                 self.curr[c] += 1
@@ -147,6 +151,8 @@ APIS = [b'v', b'vs', b'ms']
 
 
 def consumer(i, goal, rng=None):
+    if goal == EMPTY:
+        return [APIS[1 + i % 2]]
     api = APIS[i % 3]
     if rng is not None:
         api = rng.choice(APIS)
@@ -164,7 +170,7 @@ def mk_case(mode, via, consumers, script, sched):
 
 
 def goal_of(cons):
-    return max(cons[1:])
+    return max(cons[1:]) if len(cons) > 1 else EMPTY
 
 
 def exhaustive_async(k, lmax, spur, pick_via):
@@ -172,7 +178,7 @@ def exhaustive_async(k, lmax, spur, pick_via):
     for L in range(0, lmax + 1):
         for script in itertools.product('rp', repeat=L):
             m = script.count('r')
-            gchoices = list(range(m)) + [END]
+            gchoices = list(range(m)) + [END, EMPTY]
             for goals in itertools.product(gchoices, repeat=k):
                 for j, sched in enumerate(schedules(script, list(goals), spur, 10 ** 9)):
                     via = b'loc' if (j + L + k) % 4 == 0 else b'bundles'
@@ -395,7 +401,7 @@ def generate_requests(rng, tier):
     cases = []
     for m in range(0, 4):
         for nreq in range(0, 4 if quick else 5):
-            for goals in itertools.product(list(range(m + 1)) + [END], repeat=nreq):
+            for goals in itertools.product(list(range(m + 1)) + [END, EMPTY], repeat=nreq):
                 for via in (b'bundles', b'loc'):
                     cons = [consumer(i, g) for i, g in enumerate(goals)]
                     cases.append(mk_case(b'sync', via, cons, 'r' * m, []))
@@ -409,7 +415,7 @@ def generate_requests(rng, tier):
         pp = rng.choice([0.2, 0.5, 0.8])
         script = ['p' if rng.random() < pp else 'r' for _ in range(L)]
         m = script.count('r')
-        cons = [consumer(i, rng.choice(list(range(m + 1)) + [END]), rng) for i in range(k)]
+        cons = [consumer(i, rng.choice(list(range(m + 1)) + [END, EMPTY]), rng) for i in range(k)]
         if rng.random() < 0.12:
             cases.append(mk_case(b'sync', rng.choice([b'bundles', b'loc']), cons, script, []))
             continue
@@ -473,10 +479,6 @@ def _counters(o):
     return out
 
 
-def classify(case, why):
-    return 'D18' if why.startswith('D18:') else None
-
-
 def _expect_results(depths, m):
     return [[b'some', d] if d < m else b'none' for d in depths]
 
@@ -494,18 +496,12 @@ def oracle(case, out):
     if mode in (b'hasync', b'hsync'):
         return oracle_handle(c, o)
     reqs = [r[1:] for r in c[3]]
-    if any(len(r) == 0 for r in reqs):
-        # D18 (DESIGN.md section 6): a batch request with an EMPTY key list needs no bundle but pulls the first one.
-        # Not part of the generated space (recorded, not alarmed); a case with an empty request is judged on this alone.
-        flat = sexp.dumps(o)
-        pulled = [x for x in _counters(o) if x[2] > 0]
-        if all(len(r) == 0 for r in reqs) and pulled:
-            return 'D18: requests with an empty key list only, yet %d bundle(s) were generated' % max(x[2] for x in pulled)
-        return None
     script = [s == b'r' for s in c[4]]
     m = sum(script)
-    need = [min(max(r) + 1, m) for r in reqs]          # bundles request c has to look at
-    to_end = [max(r) >= m for r in reqs]               # ... and it has to learn that there are no more
+    # bundles request c has to look at (none for a batch with an empty key list) ...
+    need = [min(max(r) + 1, m) if r else 0 for r in reqs]
+    # ... and whether it has to learn that there are no more
+    to_end = [bool(r) and max(r) >= m for r in reqs]
     if mode == b'sync':
         return oracle_sync(reqs, m, need, to_end, o)
     sched = c[5]
@@ -553,6 +549,11 @@ def oracle(case, out):
         allowed = max([need[i] for i in range(n) if polled[i]] or [0])
         if y2 > allowed:
             return ('not lazy: %d bundles generated, the deepest request polled so far needs %d' % (y2, allowed))
+        if y2 > max(yielded, need[cidx]):
+            return ('not lazy: the poll of request %d (needs %d bundle(s)%s) made the source generate bundle #%d'
+                    % (cidx, need[cidx], ', empty key list' if not reqs[cidx] else '', y2))
+        if not reqs[cidx] and (dp or res == b'pending'):
+            return 'empty batch asked the bundle source (%d polls, %s)' % (dp, 'suspended' if res == b'pending' else 'completed')
         if res == b'pending':
             # suspended: it asked the source, which said Pending, after using up everything cached
             if dp != dy + 1 or dn != 0:
@@ -746,7 +747,8 @@ def oracle_sync(reqs, m, need, to_end, o):
             return 'request %d saw bundles %s, expected %s' % (i, sexp.dumps(seen), list(range(need[i])))
         wy = max(yielded, need[i])
         if y2 != wy:
-            return 'request %d: %d bundles generated so far, expected %d (lazy, each once)' % (i, y2, wy)
+            return 'request %d%s: %d bundles generated so far, expected %d (lazy, each once)' % (
+                i, ' (empty batch pulled a bundle)' if not reqs[i] else '', y2, wy)
         wc = calls + (wy - yielded) + (1 if to_end[i] else 0)
         if c2 != wc:
             return 'request %d: iterator asked %d times so far, expected %d' % (i, c2, wc)
@@ -774,8 +776,8 @@ MANIFEST = {
             'executor, both at handle level (one poll_next / next per step on the real AsyncCacheStream / CacheIter) and at request level '
             '(Bundles / Localization futures), on all schedules to completion for small k/scripts plus random long ones.',
     'note': 'Observed and stated in the theorems, not alarmed: the cache does not remember the end of the source, so every consumer that '
-            'walks to the end polls the (fused) source once more (C17_lazy counts it; C17_lazy_single_end_pull_refuted). D18 (empty key list pulls '
-            'the first bundle) is a known finding. Trusted: Coq kernel, extraction, ChunkyVec/RefCell/PinCell/Waker modelled '
+            'walks to the end polls the (fused) source once more (C17_lazy counts it; C17_lazy_single_end_pull_refuted). A batch with an empty key list asks for no bundle (D18, '
+            'fixed in /repo c955faa; model request_step / request_sync_step mirror the early return; theorem C17_lazy_empty_request). Trusted: Coq kernel, extraction, ChunkyVec/RefCell/PinCell/Waker modelled '
             'as list/state/flag, the last-registered-waker contract of the source (property hypothesis).',
     'technique': 'Rocq proof (inductive invariants over a labelled transition system, decreasing variant for progress) + differential '
                  'correspondence check + implementation-only oracle',
